@@ -51,7 +51,7 @@ CFG_FIELDS = [
 #   rows    = the final result rows (sentinel columns trimmed)
 #   inserted= global indices of the parameter sets found in the table afterwards, insertion order
 
-STYLES = ["autoinc", "sentinel", "uuid", "composite", "none", "clientpk", "omitpk", "csentinel"]
+STYLES = ["autoinc", "sentinel", "uuid", "composite", "none", "clientpk", "omitpk", "csentinel", "multibind"]
 PSTYLES = ["qmark", "named", "numeric", "numeric_dollar"]
 NULL = -1
 
@@ -63,8 +63,11 @@ RULE = (
     "named, numeric, numeric_dollar), RETURNING rows of every statement permuted in the harness "
     "(reverse / random keys) by patching DefaultExecutionContext.fetchall_for_returning; plus "
     "max_params clamps, upsert downgrades, non-multivalues dialect, DEFAULT VALUES inserts, bound "
-    "parameters outside VALUES (constant and per-row), sort_by_parameter_order off, no RETURNING, "
-    "non-positive page sizes, injected row loss / duplicate / wrong sentinel (guards). "
+    "parameters outside VALUES (constant and per-row), a VALUES element with three bound parameters, "
+    "sort_by_parameter_order off, no RETURNING, RETURNING column order, non-positive page sizes, injected "
+    "row loss / duplicate / wrong sentinel (guards); insertmanyvalues_max_parameters is also enforced by "
+    "the database (sqlite3 setlimit). quick: above 8 rows 2 of the 9 style combinations per (n, page) "
+    "in rotation, paramstyles in rotation; thorough: full product. "
     "non-trivial = more than one batch and a non-identity return permutation"
 )
 TRUSTED = [
@@ -375,7 +378,25 @@ def translate(repo, outdir):
         err = e
     if err is not None:
         raise fingerprint.TranslateError("T2: cannot translate the anchored expressions: %s" % err)
-    fingerprint.check(repo, ANCHORS, "C12")
+    try:
+        fingerprint.check(repo, ANCHORS, "C12")
+    except fingerprint.TranslateError as e:
+        # the pin fails closed; say additionally whether the re-extracted expressions still equal the model's
+        from vlib import coqrun
+
+        rc, log_ = coqrun.coqc(out[0], outdir, timeout=300)
+        if rc == 0:
+            note = "T2: the re-extracted expressions still equal the model's (the change is elsewhere)"
+        else:
+            m = re.search(r'File "[^"]*", line (\d+)', log_)
+            lemma = "?"
+            if m:
+                with open(out[0]) as fh:
+                    lines = fh.read().split("\n")[: int(m.group(1))]
+                names = [ln.split()[1] for ln in lines if ln.startswith("Lemma ")]
+                lemma = names[-1] if names else "?"
+            note = "T2: generated obligation %s no longer holds" % lemma
+        raise fingerprint.TranslateError("%s\n%s" % (note, e))
     return out
 
 
@@ -394,6 +415,8 @@ def _layout(sname, pstyle, extra, upsert, defonly, want_sentinel=True):
         vnames = ["a", "b", "d"]
     elif sname == "clientpk":
         vnames = ["id", "d"]
+    elif sname == "multibind":  # INSERT INTO t (d) VALUES (coalesce(:a, :b, :c)): one element, three binds
+        vnames = ["a", "b", "c"]
     else:
         vnames = ["d"]
     if defonly:
@@ -422,7 +445,7 @@ def make_case(rng, style, dopt=0, pstyle=0, sbo=1, returning=1, upsert=0, extra=
     nsc = implicit = has_keys = embed = 0
     sent_names = []
     if want_sentinel:
-        if sname == "autoinc" and dopt >= 1:
+        if sname in ("autoinc", "multibind") and dopt >= 1:
             nsc, implicit = 1, 1
             embed = int(dopt == 2 and not defonly)
         elif sname in ("sentinel", "csentinel"):
@@ -440,7 +463,7 @@ def make_case(rng, style, dopt=0, pstyle=0, sbo=1, returning=1, upsert=0, extra=
         per_batch = 1 if defmeta else 0
         nvalues_binds = 0
     else:
-        per_batch = len(vnames)
+        per_batch = 1 if sname == "multibind" else len(vnames)
         nvalues_binds = len(vnames)
     total = nvalues_binds + len(xnames)
     cfg = [
@@ -461,6 +484,8 @@ def make_case(rng, style, dopt=0, pstyle=0, sbo=1, returning=1, upsert=0, extra=
     tuples = []
     for i in range(n):
         vals = {"d": ds[i], "off": offs[i], "newd": ds[i], "a": ids[i], "b": us[i]}
+        if sname == "multibind":
+            vals = {"a": ds[i], "b": 1, "c": 2, "off": offs[i]}
         if sname == "sentinel":
             vals["sent"] = i
         elif sname == "csentinel":
@@ -471,15 +496,16 @@ def make_case(rng, style, dopt=0, pstyle=0, sbo=1, returning=1, upsert=0, extra=
             vals["id"] = ids[i]
         tuples.append([vals[nm] for nm in order])
     # the row the database returns
+    dname = "a" if sname == "multibind" else "d"
     if defonly:
         D = [3]
     elif extra:
-        D = [2, pos["d"]]
+        D = [2, pos[dname]]
     else:
-        D = [1, pos["d"]]
+        D = [1, pos[dname]]
     if sname == "none":
         ret = [D]
-    elif sname in ("autoinc", "sentinel", "csentinel", "omitpk"):
+    elif sname in ("autoinc", "sentinel", "csentinel", "omitpk", "multibind"):
         ret = [[0], D]
     elif sname == "composite":
         ret = [[1, pos["a"]], [1, pos["b"]], D]
@@ -501,8 +527,11 @@ def make_case(rng, style, dopt=0, pstyle=0, sbo=1, returning=1, upsert=0, extra=
     else:
         keys = [rng.randint(0, 3 * n + 1) for _ in range(n)]
     setup = [style, dopt, pstyle, upsert, extra, wo_ret, int(defonly), int(dfirst)]
+    # multibind over the (enforced) limit: the database rejects the statement - the concrete database
+    # of IMVRun.v has no parameter limit, so these cases are oracle-only
+    over = bool(sname == "multibind" and maxp and n >= 2 and len(xnames) + min(page, maxp - (total - per_batch), n) * 3 > maxp)
     return {"in": [cfg, mask, sent_pos, ret, tuples, keys, list(fault or []), setup], "kind": kind,
-            "model": n >= 2}
+            "model": n >= 2 and not over}
 
 
 def _cfg(c):
@@ -516,13 +545,13 @@ def gen_cases(rng, tier):
     combos = [(0, 0), (0, 1), (0, 2), (1, 0), (2, 0), (3, 0), (4, 0), (5, 0), (7, 0)]
     ns = list(range(0, 41))
     # 1. the grid: every n x page x style; paramstyle and permutation rotate (thorough: all paramstyles)
-    #    quick: above 10 rows every (n, page) pair still occurs, with 3 of the 9 styles in rotation
+    #    quick: above 8 rows every (n, page) pair still occurs, with 2 of the 9 styles in rotation
     g = 0
     for n in ns:
         for page in pages:
             for ci, (style, dopt) in enumerate(combos):
                 g += 1
-                if tier != "thorough" and n > 10 and (ci + n + page) % 3:
+                if tier != "thorough" and n > 8 and (ci + 2 * n + page) % 9 >= 2:
                     continue
                 pss = range(4) if tier == "thorough" else [g % 4]
                 for ps in pss:
@@ -577,8 +606,14 @@ def gen_cases(rng, tier):
             cases.append(make_case(rng, 5, pstyle=ps, extra=2, page=page, n=5, kind="per-row-extra"))
         for page in (1, 2, 1000):
             cases.append(make_case(rng, 6, pstyle=ps, page=page, n=3, kind="omitted-pk"))
+    # 4b. a VALUES element with several bound parameters: under the limit (modelled) and over it
+    #     (finding C12-clamp-counts-elements: the clamp divides by the number of elements)
+    for ps in range(4):
+        for dopt, sbo in ((0, 0), (1, 1)):
+            for page, maxp in ((2, 32700), (4, 0), (3, 40), (4, 12), (4, 10), (1000, 20)):
+                cases.append(make_case(rng, 8, dopt=dopt, pstyle=ps, sbo=sbo, page=page, maxp=maxp, n=9, kind="multibind"))
     # 5. random larger ones
-    nrand = 4000 if tier == "thorough" else 150
+    nrand = 4000 if tier == "thorough" else 120
     for _ in range(nrand):
         style, dopt = rng.choice(combos)
         cases.append(
@@ -705,7 +740,7 @@ def _build(setup):
         return next(it["vals"], 0)
 
     C, I = sa.Column, sa.Integer
-    if sname == "autoinc":
+    if sname in ("autoinc", "multibind"):
         t = sa.Table("t", md, C("id", I, primary_key=True), C("d", I))
     elif sname == "sentinel":
         t = sa.Table("t", md, C("id", I, primary_key=True), C("d", I), sa.insert_sentinel("sent"))
@@ -767,6 +802,8 @@ def impl(c):
         it["vals"] = iter([tp[pos["id"]] for tp in tuples])
 
     stmt = ins
+    if sname == "multibind":
+        stmt = stmt.values(d=sa.func.coalesce(sa.bindparam("a"), sa.bindparam("b"), sa.bindparam("c")))
     if upsert == 1:
         stmt = stmt.on_conflict_do_update(index_elements=[t.c.id], set_={"d": stmt.excluded.d})
     elif upsert == 2:
@@ -845,6 +882,11 @@ def impl(c):
     try:
         with eng.connect() as conn:
             md.create_all(conn)
+            if C["max_params"] > 0:
+                # let the database enforce the limit the dialect declares (as SQL Server does with 2100)
+                import sqlite3
+
+                conn.connection.dbapi_connection.setlimit(sqlite3.SQLITE_LIMIT_VARIABLE_NUMBER, C["max_params"])
             orig_deliver = d._deliver_insertmanyvalues_batches
 
             def deliver(connection, cursor, statement, parameters, gsi, context):
@@ -926,7 +968,7 @@ def impl(c):
                 if defonly:
                     inserted = list(range(len(allrows)))
                 else:
-                    dix = {tp[pos["d"]]: i for i, tp in enumerate(tuples)}
+                    dix = {tp[pos["a" if sname == "multibind" else "d"]]: i for i, tp in enumerate(tuples)}
                     inserted = sorted(dix.get(r[0], -1) for r in allrows)
             conn.rollback()
     finally:
@@ -1006,6 +1048,8 @@ def match_finding(c, what):
         return "C12-omitted-pk-assert"
     if setup[4] == 2 and what.startswith("returned row"):
         return "C12-nonvalues-bind"
+    if STYLES[setup[0]] == "multibind" and cfg["max_params"] and "internal error (status 9)" in what:
+        return "C12-clamp-counts-elements"
     return None
 
 
